@@ -71,6 +71,7 @@ type FV struct {
 	preSeen   map[string]bool
 	script    []string
 	arrays    map[string]string // heap array name -> sort
+	refArrays map[string]bool   // arrays whose Int elements are references
 	obls      []*Obligation
 	ctr       int
 	epochCtr  int
@@ -87,6 +88,8 @@ type FV struct {
 	unsupported []string
 	curFnKey  string
 	inlineStack []string
+	locksetOK   int
+	subCtr      int
 	axioms      []axiomTerm
 	axMu        sync.Mutex
 }
@@ -372,7 +375,7 @@ func (v *FV) zero(t types.Type) Term {
 		v.declSlice()
 		return fmt.Sprintf("(mk_slice 0 %s %s %s)", v.idxLit(0), v.idxLit(0), v.idxLit(0))
 	case *types.Array:
-		return fmt.Sprintf("((as const %s) %s)", v.sortOf(t), v.zero(u.Elem()))
+		return v.constArray(v.idx(), v.sortOf(u.Elem()), v.zero(u.Elem()))
 	}
 	return "0"
 }
@@ -502,6 +505,7 @@ func (v *FV) cmpOp(op string, signed bool) string {
 // ---------- heap epochs
 
 type Epoch struct {
+	initial bool
 	id      int
 	kind    int // 0 root/havoc-all, 1 merge, 2 partial havoc
 	parents []condSnap
@@ -564,6 +568,16 @@ func (v *FV) epochGet(e *Epoch, name string) Term {
 	case 0:
 		t = fmt.Sprintf("%s@%d", name, e.id)
 		v.emit(fmt.Sprintf("(declare-const %s %s)", t, v.arrSort(name)))
+		if e.initial && v.refArrays[name] {
+			// well-formed initial heap: references stored in it existed before the call
+			switch {
+			case v.arrSort(name) == "(Array Int Int)":
+				v.emit(fmt.Sprintf("(assert (forall ((r Int)) (! (<= (select %s r) N0!) :pattern ((select %s r)))))", t, t))
+			case strings.HasSuffix(v.arrSort(name), " Int))") && strings.HasPrefix(v.arrSort(name), "(Array Int (Array "):
+				inner := strings.TrimSuffix(strings.TrimPrefix(v.arrSort(name), "(Array Int (Array "), " Int))")
+				v.emit(fmt.Sprintf("(assert (forall ((r Int) (k %s)) (! (<= (select (select %s r) k) N0!) :pattern ((select (select %s r) k)))))", inner, t, t))
+			}
+		}
 	case 1:
 		terms := make([]Term, len(e.parents))
 		same := true
@@ -622,6 +636,9 @@ func (v *FV) fieldArray(structT types.Type, i int) (string, types.Type) {
 	f := u.Field(i)
 	name := fmt.Sprintf("H_%s_%s", typeShort(structT), mangle(f.Name()))
 	v.regArray(name, fmt.Sprintf("(Array Int %s)", v.sortOf(f.Type())))
+	if v.isRefLike(f.Type()) {
+		v.refArrays[name] = true
+	}
 	return name, f.Type()
 }
 
@@ -644,7 +661,11 @@ func (v *FV) subRef(structT types.Type, i int, base Term) Term {
 	fn := fmt.Sprintf("sub_%s_%s", typeShort(structT), mangle(u.Field(i).Name()))
 	v.pre("fn "+fn, fmt.Sprintf("(declare-fun %s (Int) Int)", fn))
 	v.pre("fninv "+fn, fmt.Sprintf("(declare-fun inv_%s (Int) Int)", fn))
-	v.pre("fnax "+fn, fmt.Sprintf("(assert (forall ((p Int)) (! (and (= (inv_%s (%s p)) p) (> (%s p) 0)) :pattern ((%s p)))))", fn, fn, fn, fn))
+	if !v.preSeen["fnax "+fn] {
+		v.subCtr++
+		v.pre("sub_tag", "(declare-fun sub_tag (Int) Int)")
+		v.pre("fnax "+fn, fmt.Sprintf("(assert (forall ((p Int)) (! (and (= (inv_%s (%s p)) p) (< (%s p) 0) (= (sub_tag (%s p)) %d)) :pattern ((%s p)))))", fn, fn, fn, fn, v.subCtr, fn))
+	}
 	return fmt.Sprintf("(%s %s)", fn, base)
 }
 
